@@ -4,6 +4,7 @@ import (
 	"bytes"
 	"fmt"
 	"io"
+	"os"
 	"path/filepath"
 	"sort"
 
@@ -241,6 +242,17 @@ func (in *instance) facts(hash string) (eventFacts, bool) {
 
 // compare checks a variant against the reference (C03 oracle).
 func (c *Cluster) compareInstances(ref, v *instance, whole bool) {
+	if c.cfg.Profile == "C01" {
+		// two honest views of one history: what counts is what they deliver
+		rl, vl := ref.sn.app.log, v.sn.app.log
+		for i := 0; i < len(vl) && i < len(rl); i++ {
+			if vl[i].Digest != rl[i].Digest {
+				c.violate("C01", "agreement", "block-divergence", "two instances fed the same events in different valid orders (%s vs creation order) delivered different blocks %d: %s", v.name, vl[i].Block.Index(),
+					bodyDiff(&vl[i].Block.Body, vl[i].Resp.StateHash, len(vl[i].Resp.InternalTransactionReceipts), fullBody(rl[i])))
+				return
+			}
+		}
+	}
 	hashes := make([]string, 0, len(v.events))
 	for h := range v.events {
 		hashes = append(hashes, h)
@@ -296,7 +308,7 @@ func (c *Cluster) compareInstances(ref, v *instance, whole bool) {
 	}
 	for i := range vl {
 		if vl[i].Digest != rl[i].Digest {
-			c.violate("C03", "blocks", "block-differs", "variant %s: block %d differs from the reference: %s", v.name, vl[i].Block.Index(),
+			c.violate(c.blockProp(), "blocks", "block-differs", "variant %s (same events, another valid insertion order / view): block %d differs from the reference instance's: %s", v.name, vl[i].Block.Index(),
 				bodyDiff(&vl[i].Block.Body, vl[i].Resp.StateHash, len(vl[i].Resp.InternalTransactionReceipts), fullBody(rl[i])))
 			return
 		}
@@ -370,7 +382,10 @@ func (c *Cluster) dagReplay(variants int) {
 	c.stats.probeMax("dagreplay-events-max", len(base))
 	c.encodingChecksFinal(ref)
 	for vi := 0; vi < variants; vi++ {
-		kind := []string{"order", "order", "subdag", "store", "cache", "batch"}[r.Intn(6)]
+		kind := []string{"order", "order", "subdag", "store", "cache", "batch", "delay", "delay"}[r.Intn(8)]
+		if c.synthetic && r.Bool(0.5) {
+			kind = "delay"
+		}
 		name := fmt.Sprintf("%s#%d", kind, vi)
 		storeKind := "inmem"
 		cache := 10000
@@ -397,6 +412,10 @@ func (c *Cluster) dagReplay(variants int) {
 			}
 		}
 		order := c.dag.randomTopo(r, base, subset)
+		if kind == "delay" {
+			order = c.dag.delayedOrder(r, base)
+		}
+		c.stats.fault("insertion-order-variant")
 		name = fmt.Sprintf("%s[%s cache=%d batch=%d events=%d/%d window=%d]", name, storeKind, cache, batch, len(order), len(base), window)
 		v := c.newInstance(name, storeKind, cache)
 		c.stats.probe("dagreplay-variant:" + kind)
@@ -422,6 +441,25 @@ func (c *Cluster) dagReplay(variants int) {
 			continue
 		}
 		nv := len(c.violations)
+		if debugTrace {
+			fmt.Fprintf(os.Stderr, "variant %s: err=%v blocks=%d ref blocks=%d\n", name, v.err, len(v.sn.app.log), len(ref.sn.app.log))
+			for _, e := range base {
+				if e.Creator == c.nodes[len(c.nodes)-1].pubHex {
+					fr, _ := ref.facts(e.Hash)
+					fv, _ := v.facts(e.Hash)
+					fmt.Fprintf(os.Stderr, "  straggler event #%d: ref round=%d wit=%v fame=%d rr=%d | variant round=%d wit=%v fame=%d rr=%d\n", e.Index, fr.round, fr.witness, fr.fame, fr.rr, fv.round, fv.witness, fv.fame, fv.rr)
+				}
+			}
+			pos := map[string]int{}
+			for i, e := range order {
+				pos[e.Hash] = i
+			}
+			for _, e := range base {
+				if e.Creator == c.nodes[len(c.nodes)-1].pubHex {
+					fmt.Fprintf(os.Stderr, "  straggler event #%d inserted at position %d of %d\n", e.Index, pos[e.Hash], len(order))
+				}
+			}
+		}
 		c.compareInstances(ref, v, whole && len(order) == len(base))
 		if batch > 1 {
 			// disagreements of variants that batch the consensus passes over several
@@ -440,4 +478,13 @@ func (c *Cluster) dagReplay(variants int) {
 			return
 		}
 	}
+}
+
+// blockProp: a block that differs between two instances holding the same
+// events is an agreement failure when the run is about C01.
+func (c *Cluster) blockProp() string {
+	if c.cfg.Profile == "C01" {
+		return "C01"
+	}
+	return "C03"
 }
